@@ -489,15 +489,15 @@ func (sc *c13Scenario) apply(ev string, states map[int]c13GState) error {
 	}
 	switch ev[0] {
 	case 's':
-		if sc.ths[i].started {
-			return fmt.Errorf("event %q: already started", ev)
+		// events that do not apply in the current state are skipped (same rule in the model), so that
+		// one event list can be run against different versions of the code
+		if !sc.ths[i].started {
+			sc.start(i)
 		}
-		sc.start(i)
 	case 'g':
-		if states[i] != gParked {
-			return fmt.Errorf("event %q: thread is not parked", ev)
+		if states[i] == gParked {
+			sc.ths[i].gate.ch <- struct{}{}
 		}
-		sc.ths[i].gate.ch <- struct{}{}
 	default:
 		return fmt.Errorf("bad event %q", ev)
 	}
